@@ -1,6 +1,1177 @@
-//! C12 — not implemented yet.
+//! C12 — Fixed-point mul-div is exact for every input and fails only when it must.
+//!
+//! Oracle: exact floor / ceil / trunc of x*y/d in `num-bigint`; expected = the value when it
+//! fits the result type, otherwise failure; d = 0 => failure.  Checked variants must return
+//! exactly `expected`; panicking variants must fail (panic / contract error) iff `expected`
+//! is "no value" and otherwise return the same value.  I256 variants: only products that fit
+//! in 256 bits are judged (statement's own restriction), plus the I256::MIN / -1 corner.
+//! Wad: checked_mul / checked_div / from_ratio are the exact rational truncated toward zero or
+//! "no value" iff it does not fit / divisor zero; pow fails iff checked_pow is None, equals it
+//! otherwise, pow(x,0)=1, pow(x,1)=x (nothing else about pow is asserted: its value depends on
+//! the truncation points of the algorithm; agreement with a transcription is only counted).
+//!
+//! Sub-checks: `lattice` (exhaustive boundary lattice^3 x 3 roundings x {checked, panicking},
+//! direct library calls, panics observed with catch_unwind), `i128` (generated: random bit
+//! lengths + triples constructed around the fit boundary; panicking variants through the
+//! `MathLib` harness contract AND directly, checked variants through the trait methods),
+//! `i256`, `wad`.
+
+use crate::big;
+use crate::contracts::c12::mathlib::MathLib;
 use crate::engine::*;
+use crate::envx;
+use crate::gen;
+use num_bigint::{BigInt, Sign};
+use num_traits::{One, Signed, ToPrimitive, Zero};
+use proptest::prelude::*;
+use serde::{Deserialize, Serialize};
+use serde_json::json;
+use soroban_sdk::{Address, Env, TryFromVal, Val, I256};
+use std::collections::BTreeMap;
+use std::panic::{catch_unwind, AssertUnwindSafe};
+use stellar_contract_utils::math::{
+    checked_mul_div_i128, checked_mul_div_i256, mul_div_i128, mul_div_i256,
+    wad::{Wad, WAD_SCALE},
+    Rounding, SorobanMulDiv,
+};
+
+// ------------------------------------------------------------------ rounding + oracle
+
+#[derive(Clone, Copy, Debug, PartialEq, Eq)]
+enum Rd {
+    Floor,
+    Ceil,
+    Trunc,
+}
+const RDS: [Rd; 3] = [Rd::Floor, Rd::Ceil, Rd::Trunc];
+impl Rd {
+    fn lib(self) -> Rounding {
+        match self {
+            Rd::Floor => Rounding::Floor,
+            Rd::Ceil => Rounding::Ceil,
+            Rd::Trunc => Rounding::Truncate,
+        }
+    }
+    fn name(self) -> &'static str {
+        match self {
+            Rd::Floor => "floor",
+            Rd::Ceil => "ceil",
+            Rd::Trunc => "trunc",
+        }
+    }
+    fn idx(self) -> usize {
+        self as usize
+    }
+}
+
+/// the mathematically rounded quotient n/d, d != 0
+fn exact_div(n: &BigInt, d: &BigInt, r: Rd) -> BigInt {
+    match r {
+        Rd::Floor => big::div_floor(n, d),
+        Rd::Ceil => big::div_ceil(n, d),
+        Rd::Trunc => big::div_trunc(n, d),
+    }
+}
+
+fn two_pow(k: u32) -> BigInt {
+    BigInt::one() << k
+}
+
+/// "within 2^64 of an i128 bound" (judged on the exact quotient, whether or not it fits)
+fn near_i128_bound(q: &BigInt) -> bool {
+    let w = two_pow(64);
+    (q - BigInt::from(i128::MAX)).abs() <= w || (q - BigInt::from(i128::MIN)).abs() <= w
+}
+
+fn sgn(x: &BigInt) -> usize {
+    match x.sign() {
+        Sign::Minus => 0,
+        Sign::NoSign => 1,
+        Sign::Plus => 2,
+    }
+}
+const SGN: [&str; 3] = ["neg", "zero", "pos"];
+
+// ------------------------------------------------------------------ class tally (cheap, flushed once)
+
+struct Tally {
+    m: BTreeMap<&'static str, u64>,
+    /// rounding(3) x path(2) x product sign(3) x denominator sign(3)
+    sign: [u64; 54],
+}
+impl Default for Tally {
+    fn default() -> Self {
+        Tally { m: BTreeMap::new(), sign: [0; 54] }
+    }
+}
+impl Tally {
+    fn add(&mut self, k: &'static str) {
+        *self.m.entry(k).or_insert(0) += 1;
+    }
+    fn flush(&self, ctx: &mut Ctx) {
+        for (k, v) in &self.m {
+            ctx.class_n(k, *v);
+        }
+        for (i, v) in self.sign.iter().enumerate() {
+            if *v > 0 {
+                let (r, rest) = (i / 18, i % 18);
+                let (path, rest) = (rest / 9, rest % 9);
+                let name = format!("i128.{}.{}.p_{}.d_{}", RDS[r].name(), ["native", "i256path"][path], SGN[rest / 3], SGN[rest % 3]);
+                ctx.class_n(&name, *v);
+            }
+        }
+    }
+}
+
+// ------------------------------------------------------------------ observing calls
+
+/// direct library call; a panic (contract error raised through the Env, or a plain Rust
+/// arithmetic panic) is observed as `Err(())`
+fn guarded<T>(f: impl FnOnce() -> T) -> Result<T, ()> {
+    catch_unwind(AssertUnwindSafe(f)).map_err(|_| ())
+}
+
+fn opt_i128_from_val(e: &Env, v: &Val) -> Result<Option<i128>, String> {
+    if v.is_void() {
+        Ok(None)
+    } else {
+        i128::try_from_val(e, v).map(Some).map_err(|_| "unexpected return type".to_string())
+    }
+}
+
+// ------------------------------------------------------------------ i128 judgement
+
+fn judge_checked(api: &str, r: &str, path: &str, got: Result<Option<i128>, ()>, want: Option<i128>, why: &str, input: &dyn Fn() -> String) -> R {
+    match (got, want) {
+        (Err(()), _) => bail!(format!("C12/{api}/{r}/panicked/{path}"), "checked variant panicked; {}", input()),
+        (Ok(Some(v)), None) => {
+            bail!(format!("C12/{api}/{r}/value-but-must-fail:{why}/{path}"), "returned {v} but must report no value ({why}); {}", input())
+        }
+        (Ok(None), Some(w)) => bail!(format!("C12/{api}/{r}/none-but-fits/{path}"), "returned None but the exact result {w} fits; {}", input()),
+        (Ok(Some(v)), Some(w)) => {
+            ensure!(v == w, format!("C12/{api}/{r}/wrong-value/{path}"), "returned {v}, exact result is {w}; {}", input());
+            Ok(())
+        }
+        (Ok(None), None) => Ok(()),
+    }
+}
+
+fn judge_panicking(api: &str, r: &str, path: &str, got: Result<i128, ()>, want: Option<i128>, why: &str, input: &dyn Fn() -> String) -> R {
+    match (got, want) {
+        (Ok(v), None) => bail!(format!("C12/{api}/{r}/returned-but-must-fail:{why}/{path}"), "returned {v} but must fail ({why}); {}", input()),
+        (Err(()), Some(w)) => bail!(format!("C12/{api}/{r}/failed-but-fits/{path}"), "failed but the exact result {w} fits; {}", input()),
+        (Ok(v), Some(w)) => {
+            ensure!(v == w, format!("C12/{api}/{r}/wrong-value/{path}"), "returned {v}, exact result is {w}; {}", input());
+            Ok(())
+        }
+        (Err(()), None) => Ok(()),
+    }
+}
+
+#[derive(Clone, Copy, PartialEq)]
+enum Route {
+    /// free functions called directly (lattice)
+    DirectFree,
+    /// trait methods directly + panicking free function through the contract
+    TraitAndContract { checked_via_contract: bool },
+}
+
+fn trait_checked(e: &Env, x: i128, y: i128, d: i128, r: Rd) -> Option<i128> {
+    match r {
+        Rd::Floor => x.checked_mul_div_floor(e, &y, &d),
+        Rd::Ceil => x.checked_mul_div_ceil(e, &y, &d),
+        Rd::Trunc => x.checked_mul_div(e, &y, &d),
+    }
+}
+fn trait_panicking(e: &Env, x: i128, y: i128, d: i128, r: Rd) -> i128 {
+    match r {
+        Rd::Floor => x.mul_div_floor(e, &y, &d),
+        Rd::Ceil => x.mul_div_ceil(e, &y, &d),
+        Rd::Trunc => x.mul_div(e, &y, &d),
+    }
+}
+
+/// Evaluates one triple under the three roundings, both variants.  Returns the bitmask of
+/// roundings for which the evaluation satisfies the non-triviality rule.
+fn eval_i128(e: &Env, lib: Option<&Address>, x: i128, y: i128, d: i128, route: Route, t: &mut Tally) -> Result<u8, Violation> {
+    let p = big::b(x) * big::b(y);
+    let bd = big::b(d);
+    let native = x.checked_mul(y).is_some();
+    let path = if native { "native" } else { "i256path" };
+    let inexact = !bd.is_zero() && !(&p % &bd).is_zero();
+    let neg_quot = (p.is_negative() && bd.is_positive()) || (p.is_positive() && bd.is_negative());
+    let input = || format!("x={x} y={y} d={d}");
+    if d != 0 {
+        let fits: Vec<bool> = RDS.iter().map(|r| exact_div(&p, &bd, *r).to_i128().is_some()).collect();
+        if fits.iter().any(|f| *f) && fits.iter().any(|f| !*f) {
+            t.add("i128.rounding_decides_fit");
+        }
+    }
+    let mut mask = 0u8;
+    for r in RDS {
+        let (want, why, q): (Option<i128>, &str, Option<BigInt>) = if d == 0 {
+            (None, "zero-den", None)
+        } else {
+            let q = exact_div(&p, &bd, r);
+            (q.to_i128(), "no-fit", Some(q))
+        };
+        // ---- classes
+        t.sign[r.idx() * 18 + (!native as usize) * 9 + sgn(&p) * 3 + sgn(&bd)] += 1;
+        let near = q.as_ref().map(near_i128_bound).unwrap_or(false);
+        let neg_inexact = inexact && neg_quot;
+        if !native {
+            t.add("i128.phantom_overflow");
+        }
+        if near {
+            t.add("i128.near_bound");
+            if want.is_some() {
+                t.add("i128.near_bound.fits");
+            } else {
+                t.add("i128.near_bound.no_fit");
+            }
+        }
+        if neg_inexact {
+            t.add("i128.neg_inexact");
+        }
+        if inexact && !neg_quot {
+            t.add("i128.pos_inexact");
+        }
+        match (want, d == 0) {
+            (Some(_), _) => t.add("i128.expect_value"),
+            (None, true) => t.add("i128.expect_fail.zero_den"),
+            (None, false) => t.add("i128.expect_fail.no_fit"),
+        }
+        if q.as_ref().map(|q| *q == two_pow(127)).unwrap_or(false) {
+            t.add("i128.quotient_is_2^127");
+        }
+        if !native || near || neg_inexact {
+            mask |= 1 << r.idx();
+        }
+        // ---- calls
+        match route {
+            Route::DirectFree => {
+                let c = guarded(|| checked_mul_div_i128(e, x, y, d, r.lib()));
+                judge_checked("checked_mul_div_i128", r.name(), path, c, want, why, &input)?;
+                let pz = guarded(|| mul_div_i128(e, x, y, d, r.lib()));
+                judge_panicking("mul_div_i128", r.name(), path, pz, want, why, &input)?;
+            }
+            Route::TraitAndContract { checked_via_contract } => {
+                let c = guarded(|| trait_checked(e, x, y, d, r));
+                judge_checked("i128::checked_mul_div*", r.name(), path, c, want, why, &input)?;
+                let pz = guarded(|| trait_panicking(e, x, y, d, r));
+                judge_panicking("i128::mul_div*", r.name(), path, pz, want, why, &input)?;
+                let lib = lib.expect("contract route needs the MathLib address");
+                let pc = envx::call_t::<i128>(e, lib, "mul_div_i128", args![e; x, y, d, r.lib()]).map_err(|_| ());
+                judge_panicking("contract:mul_div_i128", r.name(), path, pc, want, why, &input)?;
+                t.add("i128.contract_calls");
+                if checked_via_contract {
+                    let cc = match envx::call(e, lib, "checked_mul_div_i128", args![e; x, y, d, r.lib()]) {
+                        Ok(v) => opt_i128_from_val(e, &v).map_err(|_| ()),
+                        Err(_) => Err(()),
+                    };
+                    judge_checked("contract:checked_mul_div_i128", r.name(), path, cc, want, why, &input)?;
+                    t.add("i128.contract_calls");
+                }
+            }
+        }
+    }
+    Ok(mask)
+}
+
+// ------------------------------------------------------------------ (a) exhaustive lattice
+
+fn lattice(tier: Tier) -> Vec<i128> {
+    let mut v = gen::i128_lattice();
+    if tier == Tier::Thorough {
+        let e9 = 1_000_000_000i128;
+        for k in [16u32, 48, 65, 80, 100, 112, 120, 125] {
+            for dlt in [-1i128, 0, 1] {
+                v.push((1i128 << k) + dlt);
+                v.push(-((1i128 << k) + dlt));
+            }
+        }
+        for b in [e9, e9 * e9 * e9, i128::MAX / WAD_SCALE, i128::MAX / WAD_SCALE + 1, 13_043_817_825_332_782_212i128] {
+            v.push(b);
+            v.push(-b);
+        }
+        v.extend([i128::MIN + 2, i128::MAX - 2, i128::MAX / 3, i128::MIN / 3]);
+    }
+    v.sort();
+    v.dedup();
+    v
+}
+
+fn lat_slabs(tier: Tier) -> u64 {
+    let n = lattice(tier).len() as u64;
+    n * n
+}
+
+fn lat_run(tier: Tier, slab: u64, ctx: &mut Ctx, out: &mut FixedOut) -> R {
+    let lat = lattice(tier);
+    let n = lat.len() as u64;
+    let (x, y) = (lat[(slab / n) as usize], lat[(slab % n) as usize]);
+    let e = envx::new_env(100, envx::BIG_TTL);
+    let mut t = Tally::default();
+    for &d in &lat {
+        match eval_i128(&e, None, x, y, d, Route::DirectFree, &mut t) {
+            Ok(mask) => {
+                out.evaluations += 3;
+                for r in RDS {
+                    if mask & (1 << r.idx()) != 0 {
+                        out.nontrivial.push(hash_str(&format!("{x},{y},{d},{}", r.name())));
+                        if out.samples.is_empty() {
+                            out.samples.push(json!({"x": x.to_string(), "y": y.to_string(), "d": d.to_string(), "rounding": r.name()}));
+                        }
+                    }
+                }
+                if mask != 0 {
+                    ctx.nontrivial = true;
+                }
+            }
+            Err(v) => {
+                out.failing = Some(json!({"x": x.to_string(), "y": y.to_string(), "d": d.to_string()}));
+                t.flush(ctx);
+                return Err(v);
+            }
+        }
+    }
+    t.add("lattice.slabs");
+    t.flush(ctx);
+    Ok(())
+}
+
+// ------------------------------------------------------------------ (b) generated i128 triples
+
+/// target quotient next to an i128 bound
+#[derive(Clone, Debug, Serialize, Deserialize)]
+pub struct QSel {
+    /// 0: MAX-off (fits)  1: MAX+1+off (does not fit)  2: MIN+off (fits)  3: MIN-1-off (does not fit)
+    pub side: u8,
+    pub off: u64,
+}
+impl QSel {
+    fn big(&self) -> BigInt {
+        let o = BigInt::from(self.off);
+        match self.side % 4 {
+            0 => BigInt::from(i128::MAX) - o,
+            1 => BigInt::from(i128::MAX) + 1 + o,
+            2 => BigInt::from(i128::MIN) + o,
+            _ => BigInt::from(i128::MIN) - 1 - o,
+        }
+    }
+}
+
+#[derive(Clone, Debug, Serialize, Deserialize)]
+pub enum Trip {
+    Raw {
+        #[serde(with = "crate::gen::i128_str")]
+        x: i128,
+        #[serde(with = "crate::gen::i128_str")]
+        y: i128,
+        #[serde(with = "crate::gen::i128_str")]
+        d: i128,
+    },
+    /// x = d*k, y = trunc(q/k) + dy  =>  x*y/d = k*y exactly (reaches the bound with small |d|)
+    Mult {
+        #[serde(with = "crate::gen::i128_str")]
+        d: i128,
+        k: i8,
+        q: QSel,
+        dy: i8,
+    },
+    /// d = trunc(x*y/q) + dd  (huge operands, inexact quotients next to the bound)
+    FromXY {
+        #[serde(with = "crate::gen::i128_str")]
+        x: i128,
+        #[serde(with = "crate::gen::i128_str")]
+        y: i128,
+        q: QSel,
+        dd: i8,
+    },
+    /// d = ±x*ratio/2^32 (|x|/4 <= |d| < |x|), y = trunc(q*d/x) + dy
+    FromXD {
+        #[serde(with = "crate::gen::i128_str")]
+        x: i128,
+        ratio: u32,
+        dneg: bool,
+        q: QSel,
+        dy: i8,
+    },
+}
+
+impl Trip {
+    /// derive the concrete triple (None: the construction does not yield i128 operands)
+    fn resolve(&self) -> Option<(i128, i128, i128)> {
+        match self {
+            Trip::Raw { x, y, d } => Some((*x, *y, *d)),
+            Trip::Mult { d, k, q, dy } => {
+                if *k == 0 {
+                    return None;
+                }
+                let x = d.checked_mul(*k as i128)?;
+                let y = (big::div_trunc(&q.big(), &BigInt::from(*k)) + BigInt::from(*dy)).to_i128()?;
+                Some((x, y, *d))
+            }
+            Trip::FromXY { x, y, q, dd } => {
+                let p = big::b(*x) * big::b(*y);
+                let d = (big::div_trunc(&p, &q.big()) + BigInt::from(*dd)).to_i128()?;
+                Some((*x, *y, d))
+            }
+            Trip::FromXD { x, ratio, dneg, q, dy } => {
+                if *x == 0 {
+                    return None;
+                }
+                let r = BigInt::from((*ratio).max(1u32 << 30));
+                let mut d: BigInt = (big::b(*x) * r) >> 32; // floor; sign of x
+                if *dneg {
+                    d = -d;
+                }
+                let d = d.to_i128()?;
+                let y = (big::div_trunc(&(q.big() * big::b(d)), &big::b(*x)) + BigInt::from(*dy)).to_i128()?;
+                Some((*x, y, d))
+            }
+        }
+    }
+    fn kind(&self) -> &'static str {
+        match self {
+            Trip::Raw { .. } => "i128.gen.raw",
+            Trip::Mult { .. } => "i128.gen.mult",
+            Trip::FromXY { .. } => "i128.gen.from_xy",
+            Trip::FromXD { .. } => "i128.gen.from_xd",
+        }
+    }
+}
+
+fn qsel() -> BoxedStrategy<QSel> {
+    (0u8..4, prop_oneof![4 => 0u64..4, 1 => any::<u64>()]).prop_map(|(side, off)| QSel { side, off }).boxed()
+}
+
+/// random i128 with bit length in lo..=hi, random sign
+fn i128_bits(lo: u32, hi: u32) -> BoxedStrategy<i128> {
+    (lo..=hi, any::<u128>(), any::<bool>())
+        .prop_map(|(bits, raw, neg)| {
+            let m: u128 = if bits == 0 { 0 } else { (raw >> (128 - bits)) | (1u128 << (bits - 1)) };
+            let x = m as i128;
+            if neg {
+                -x
+            } else {
+                x
+            }
+        })
+        .boxed()
+}
+
+fn trip_strategy() -> BoxedStrategy<Trip> {
+    prop_oneof![
+        5 => (gen::i128_anybits(), gen::i128_anybits(), gen::i128_anybits()).prop_map(|(x, y, d)| Trip::Raw { x, y, d }),
+        3 => (gen::i128_full(), gen::i128_full(), gen::i128_full()).prop_map(|(x, y, d)| Trip::Raw { x, y, d }),
+        // big product, denominator of comparable size: quotient of moderate size, often inexact
+        2 => (i128_bits(64, 127), i128_bits(64, 127), i128_bits(100, 127)).prop_map(|(x, y, d)| Trip::Raw { x, y, d }),
+        2 => (gen::i128_anybits(), -8i8..=8, qsel(), -2i8..=2).prop_map(|(d, k, q, dy)| Trip::Mult { d, k, q, dy }),
+        3 => (i128_bits(100, 127), i128_bits(100, 127), qsel(), -2i8..=2).prop_map(|(x, y, q, dd)| Trip::FromXY { x, y, q, dd }),
+        3 => (i128_bits(3, 127), any::<u32>(), any::<bool>(), qsel(), -2i8..=2)
+            .prop_map(|(x, ratio, dneg, q, dy)| Trip::FromXD { x, ratio, dneg, q, dy }),
+    ]
+    .boxed()
+}
+
+#[derive(Clone, Debug, Serialize, Deserialize)]
+pub struct Case128 {
+    pub trips: Vec<Trip>,
+}
+
+const TRIPS_PER_CASE: usize = 32;
+
+fn strat128(_tier: Tier) -> BoxedStrategy<Case128> {
+    proptest::collection::vec(trip_strategy(), 1..=TRIPS_PER_CASE).prop_map(|trips| Case128 { trips }).boxed()
+}
+
+fn run128(case: &Case128, ctx: &mut Ctx) -> R {
+    let e = envx::new_env(100, envx::BIG_TTL);
+    let lib = e.register(MathLib, ());
+    let mut t = Tally::default();
+    let mut res = Ok(());
+    for (i, trip) in case.trips.iter().enumerate() {
+        let Some((x, y, d)) = trip.resolve() else {
+            t.add("i128.gen.construction_out_of_range");
+            continue;
+        };
+        t.add(trip.kind());
+        t.add("i128.gen.triples");
+        match eval_i128(&e, Some(&lib), x, y, d, Route::TraitAndContract { checked_via_contract: i < 4 }, &mut t) {
+            Ok(mask) => {
+                ctx.op(true);
+                if mask != 0 {
+                    ctx.nontrivial = true;
+                    t.add("i128.gen.nontrivial_triples");
+                }
+            }
+            Err(mut v) => {
+                v.detail = format!("triple #{i} {:?}: {}", trip, v.detail);
+                res = Err(v);
+                break;
+            }
+        }
+    }
+    if ctx.nontrivial {
+        t.add("nontrivial");
+    }
+    t.flush(ctx);
+    res
+}
+
+// ------------------------------------------------------------------ (c) I256
+
+/// 256-bit two's complement word as four JSON-friendly limbs
+#[derive(Clone, Copy, Debug, Serialize, Deserialize, PartialEq, Eq)]
+pub struct W {
+    pub hh: i64,
+    pub hl: u64,
+    pub lh: u64,
+    pub ll: u64,
+}
+impl W {
+    fn big(&self) -> BigInt {
+        let hi: i128 = ((self.hh as i128) << 64) | (self.hl as i128);
+        let lo: u128 = ((self.lh as u128) << 64) | (self.ll as u128);
+        (BigInt::from(hi) << 128) + BigInt::from(lo)
+    }
+    fn from_big(v: &BigInt) -> Option<W> {
+        if *v < -two_pow(255) || *v >= two_pow(255) {
+            return None;
+        }
+        let u = if v.is_negative() { v + two_pow(256) } else { v.clone() };
+        let (_, mut digits) = u.to_u64_digits();
+        digits.resize(4, 0);
+        Some(W { hh: digits[3] as i64, hl: digits[2], lh: digits[1], ll: digits[0] })
+    }
+    fn i256(&self, e: &Env) -> I256 {
+        I256::from_parts(e, self.hh, self.hl, self.lh, self.ll)
+    }
+}
+
+fn i256_to_big(v: &I256) -> BigInt {
+    let mut a = [0u8; 32];
+    v.to_be_bytes().copy_into_slice(&mut a);
+    BigInt::from_signed_bytes_be(&a)
+}
+
+fn fits_i256(v: &BigInt) -> bool {
+    *v >= -two_pow(255) && *v < two_pow(255)
+}
+
+fn lattice256() -> Vec<W> {
+    let e18 = big::pow10(18);
+    let mut v: Vec<BigInt> = vec![];
+    for b in [
+        BigInt::zero(),
+        BigInt::one(),
+        BigInt::from(2),
+        BigInt::from(3),
+        BigInt::from(10),
+        two_pow(63),
+        two_pow(64),
+        e18.clone(),
+        two_pow(127),
+        two_pow(128),
+        &e18 * &e18,
+        two_pow(192),
+        two_pow(254),
+    ] {
+        for dl in [-1i32, 0, 1] {
+            let x = &b + BigInt::from(dl);
+            v.push(-x.clone());
+            v.push(x);
+        }
+    }
+    v.push(two_pow(255) - 1);
+    v.push(two_pow(255) - 2);
+    v.push(-two_pow(255));
+    v.push(-two_pow(255) + 1);
+    v.sort();
+    v.dedup();
+    v.iter().filter_map(W::from_big).collect()
+}
+
+/// random 256-bit value of bit length <= the drawn length in lo..=hi, random sign
+fn w_bits(lo: u32, hi: u32) -> BoxedStrategy<W> {
+    (lo..=hi, any::<[u64; 4]>(), any::<bool>())
+        .prop_map(|(bits, raw, neg)| {
+            let full: BigInt = raw.iter().fold(BigInt::zero(), |acc, l| (acc << 64) + BigInt::from(*l));
+            let m = full >> (256 - bits);
+            W::from_big(&if neg { -m } else { m }).expect("<= 255 bits")
+        })
+        .boxed()
+}
+
+fn w_den() -> BoxedStrategy<W> {
+    prop_oneof![
+        5 => w_bits(0, 255),
+        2 => proptest::sample::select(lattice256()),
+        2 => (-3i64..=3).prop_map(|k| W::from_big(&BigInt::from(k)).unwrap()),
+    ]
+    .boxed()
+}
+
+#[derive(Clone, Debug, Serialize, Deserialize)]
+pub enum Trip256 {
+    Raw { x: W, y: W, d: W },
+    /// y = trunc(P/x) moved `dy` toward zero, P = 2^255-1 (neg=false) or -2^255 (neg=true): product at the edge of the domain
+    Edge { x: W, neg: bool, dy: u8, d: W },
+    /// x = ±2^a, y = ∓2^(255-a): product is exactly I256::MIN; d small (−1 is the corner)
+    MinCorner { a: u8, flip: bool, d: i8 },
+}
+impl Trip256 {
+    fn resolve(&self) -> Option<(W, W, W)> {
+        match self {
+            Trip256::Raw { x, y, d } => Some((*x, *y, *d)),
+            Trip256::Edge { x, neg, dy, d } => {
+                let bx = x.big();
+                if bx.is_zero() {
+                    return None;
+                }
+                let p = if *neg { -two_pow(255) } else { two_pow(255) - 1 };
+                let mut y = big::div_trunc(&p, &bx);
+                let step = BigInt::from(*dy);
+                if y.abs() >= step {
+                    y = if y.is_negative() { y + step } else { y - step };
+                }
+                Some((*x, W::from_big(&y)?, *d))
+            }
+            Trip256::MinCorner { a, flip, d } => {
+                let a = (*a as u32) % 255 + 1; // 1..=255 ; 2^a fits only for a <= 254 as a positive number
+                let (mut x, mut y) = if a <= 254 { (two_pow(a), -two_pow(255 - a)) } else { (-two_pow(255), BigInt::one()) };
+                if *flip {
+                    std::mem::swap(&mut x, &mut y);
+                }
+                Some((W::from_big(&x)?, W::from_big(&y)?, W::from_big(&BigInt::from(*d))?))
+            }
+        }
+    }
+}
+
+fn trip256_strategy() -> BoxedStrategy<Trip256> {
+    let fitting = (0u32..=255).prop_flat_map(|bx| (w_bits(bx, bx), w_bits(0, 255 - bx), w_den())).prop_map(|(x, y, d)| Trip256::Raw { x, y, d });
+    let lat = lattice256();
+    prop_oneof![
+        6 => fitting,
+        2 => (proptest::sample::select(lat.clone()), proptest::sample::select(lat.clone()), w_den()).prop_map(|(x, y, d)| Trip256::Raw { x, y, d }),
+        3 => (w_bits(1, 255), any::<bool>(), 0u8..3, w_den()).prop_map(|(x, neg, dy, d)| Trip256::Edge { x, neg, dy, d }),
+        1 => (any::<u8>(), any::<bool>(), prop_oneof![3 => Just(-1i8), 1 => -3i8..=3]).prop_map(|(a, flip, d)| Trip256::MinCorner { a, flip, d }),
+        1 => (w_bits(0, 255), w_bits(0, 255), w_den()).prop_map(|(x, y, d)| Trip256::Raw { x, y, d }),
+    ]
+    .boxed()
+}
+
+#[derive(Clone, Debug, Serialize, Deserialize)]
+pub struct Case256 {
+    pub trips: Vec<Trip256>,
+}
+fn strat256(_tier: Tier) -> BoxedStrategy<Case256> {
+    proptest::collection::vec(trip256_strategy(), 1..=12).prop_map(|trips| Case256 { trips }).boxed()
+}
+
+fn eval_i256(e: &Env, lib: &Address, xw: W, yw: W, dw: W, t: &mut Tally) -> Result<bool, Violation> {
+    let (bx, by, bd) = (xw.big(), yw.big(), dw.big());
+    let p = &bx * &by;
+    let input = || format!("x={bx} y={by} d={bd}");
+    if !fits_i256(&p) {
+        // outside the statement's domain ("whenever the product fits in 256 bits"): observed, never judged
+        t.add("i256.out_of_domain");
+        let c = guarded(|| checked_mul_div_i256(e, xw.i256(e), yw.i256(e), dw.i256(e), Rounding::Floor).map(|v| i256_to_big(&v)));
+        match c {
+            Err(()) => t.add("i256.out_of_domain.checked_panics"),
+            Ok(None) => t.add("i256.out_of_domain.checked_none"),
+            Ok(Some(_)) => t.add("i256.out_of_domain.checked_value"),
+        }
+        return Ok(false);
+    }
+    t.add("i256.in_domain");
+    let beyond = p.to_i128().is_none();
+    if beyond {
+        t.add("i256.product_beyond_i128");
+    }
+    if p == -two_pow(255) {
+        t.add("i256.product_is_min");
+    }
+    let inexact = !bd.is_zero() && !(&p % &bd).is_zero();
+    let neg_quot = (p.is_negative() && bd.is_positive()) || (p.is_positive() && bd.is_negative());
+    let mut nontrivial = false;
+    for r in RDS {
+        let want: Option<BigInt> = if bd.is_zero() { None } else { Some(exact_div(&p, &bd, r)) };
+        let fits = want.as_ref().map(fits_i256).unwrap_or(false);
+        let rn = r.name();
+        let c = guarded(|| checked_mul_div_i256(e, xw.i256(e), yw.i256(e), dw.i256(e), r.lib()).map(|v| i256_to_big(&v)));
+        let pd = guarded(|| i256_to_big(&mul_div_i256(e, xw.i256(e), yw.i256(e), dw.i256(e), r.lib())));
+        let pc = envx::call_t::<I256>(e, lib, "mul_div_i256", args![e; xw.i256(e), yw.i256(e), dw.i256(e), r.lib()]).map(|v| i256_to_big(&v)).map_err(|_| ());
+        t.add("i256.evaluations");
+        match &want {
+            None => {
+                t.add("i256.zero_den");
+                // documented: checked variants return None when the denominator is zero
+                match &c {
+                    Ok(None) => {}
+                    Ok(Some(v)) => bail!(format!("C12/checked_mul_div_i256/{rn}/value-but-must-fail:zero-den"), "returned {v}; {}", input()),
+                    Err(()) => bail!(format!("C12/checked_mul_div_i256/{rn}/panicked:zero-den"), "checked variant panicked on a zero denominator; {}", input()),
+                }
+                for (api, got) in [("mul_div_i256", &pd), ("contract:mul_div_i256", &pc)] {
+                    if let Ok(v) = got {
+                        bail!(format!("C12/{api}/{rn}/returned-but-must-fail:zero-den"), "returned {v}; {}", input());
+                    }
+                }
+            }
+            Some(q) if fits => {
+                t.add("i256.expect_value");
+                if inexact && neg_quot {
+                    t.add("i256.neg_inexact");
+                    nontrivial = true;
+                }
+                if inexact && !neg_quot {
+                    t.add("i256.pos_inexact");
+                }
+                if beyond {
+                    nontrivial = true;
+                }
+                if q.to_i128().is_none() {
+                    t.add("i256.quotient_beyond_i128");
+                }
+                match &c {
+                    Ok(Some(v)) => ensure!(v == q, format!("C12/checked_mul_div_i256/{rn}/wrong-value"), "returned {v}, exact result is {q}; {}", input()),
+                    Ok(None) => bail!(format!("C12/checked_mul_div_i256/{rn}/none-but-fits"), "returned None, exact result {q} fits; {}", input()),
+                    Err(()) => bail!(format!("C12/checked_mul_div_i256/{rn}/panicked"), "panicked although product and result {q} fit; {}", input()),
+                }
+                for (api, got) in [("mul_div_i256", &pd), ("contract:mul_div_i256", &pc)] {
+                    match got {
+                        Ok(v) => ensure!(v == q, format!("C12/{api}/{rn}/wrong-value"), "returned {v}, exact result is {q}; {}", input()),
+                        Err(()) => bail!(format!("C12/{api}/{rn}/failed-but-fits"), "failed although product and result {q} fit; {}", input()),
+                    }
+                }
+            }
+            Some(q) => {
+                // only I256::MIN / -1: the quotient 2^255 does not fit.  No variant may hand back a value;
+                // whether the checked variant says None or panics is left open by the module note.
+                t.add("i256.corner_min_div_neg1");
+                nontrivial = true;
+                match &c {
+                    Ok(Some(v)) => bail!(format!("C12/checked_mul_div_i256/{rn}/value-but-must-fail:no-fit"), "returned {v} for the exact result {q}; {}", input()),
+                    Ok(None) => t.add("i256.corner.checked_none"),
+                    Err(()) => t.add("i256.corner.checked_panics"),
+                }
+                for (api, got) in [("mul_div_i256", &pd), ("contract:mul_div_i256", &pc)] {
+                    if let Ok(v) = got {
+                        bail!(format!("C12/{api}/{rn}/returned-but-must-fail:no-fit"), "returned {v} for the exact result {q}; {}", input());
+                    }
+                }
+            }
+        }
+    }
+    Ok(nontrivial)
+}
+
+fn run256(case: &Case256, ctx: &mut Ctx) -> R {
+    let e = envx::new_env(100, envx::BIG_TTL);
+    let lib = e.register(MathLib, ());
+    let mut t = Tally::default();
+    let mut res = Ok(());
+    for (i, trip) in case.trips.iter().enumerate() {
+        let Some((x, y, d)) = trip.resolve() else {
+            t.add("i256.construction_out_of_range");
+            continue;
+        };
+        match eval_i256(&e, &lib, x, y, d, &mut t) {
+            Ok(nt) => {
+                ctx.op(true);
+                if nt {
+                    ctx.nontrivial = true;
+                    t.add("i256.nontrivial_triples");
+                }
+            }
+            Err(mut v) => {
+                v.detail = format!("triple #{i} {:?}: {}", trip, v.detail);
+                res = Err(v);
+                break;
+            }
+        }
+    }
+    if ctx.nontrivial {
+        t.add("nontrivial");
+    }
+    t.flush(ctx);
+    res
+}
+
+// ------------------------------------------------------------------ (d) Wad
+
+#[derive(Clone, Debug, Serialize, Deserialize)]
+pub enum WOp {
+    Mul {
+        #[serde(with = "crate::gen::i128_str")]
+        a: i128,
+        #[serde(with = "crate::gen::i128_str")]
+        b: i128,
+    },
+    /// checked_div(a, b) and from_ratio(a, b)
+    Div {
+        #[serde(with = "crate::gen::i128_str")]
+        a: i128,
+        #[serde(with = "crate::gen::i128_str")]
+        b: i128,
+    },
+    /// b = trunc(q*10^18 / a) + db : a*b/10^18 next to the i128 bound
+    MulEdge {
+        #[serde(with = "crate::gen::i128_str")]
+        a: i128,
+        q: QSel,
+        db: i8,
+    },
+    /// a = trunc(q*b / 10^18) + da : a*10^18/b next to the i128 bound (needs |b| <= ~10^18)
+    DivEdge {
+        #[serde(with = "crate::gen::i128_str")]
+        b: i128,
+        q: QSel,
+        da: i8,
+    },
+    Pow {
+        #[serde(with = "crate::gen::i128_str")]
+        x: i128,
+        n: u32,
+    },
+}
+
+fn wad_operand() -> BoxedStrategy<i128> {
+    // ~ sqrt(i128::MAX * 10^18): squares of these sit at the fit boundary of checked_mul
+    const SQRT_EDGE: i128 = 13_043_817_825_332_782_212_062_953_289;
+    prop_oneof![
+        3 => proptest::sample::select(gen::i128_lattice()),
+        3 => (-6i128..=6, -3i128..=3).prop_map(|(k, dl)| k * WAD_SCALE + dl),
+        2 => (-2000i128..=2000).prop_map(|m| m * (WAD_SCALE / 1000)),
+        4 => gen::i128_anybits(),
+        1 => (-3i128..=3, any::<bool>()).prop_map(|(dl, neg)| if neg { -(SQRT_EDGE + dl) } else { SQRT_EDGE + dl }),
+        1 => any::<i128>(),
+        1 => -1000i128..=1000,
+    ]
+    .boxed()
+}
+
+/// denominators for which a numerator with a*10^18/b = ±2^127 exists in i128 (|b| <= 10^18)
+fn div_edge_den() -> BoxedStrategy<i128> {
+    prop_oneof![
+        3 => (0i128..=4, any::<bool>()).prop_map(|(dl, neg)| if neg { -(WAD_SCALE - dl) } else { WAD_SCALE - dl }),
+        3 => (1u32..=60, any::<u64>(), any::<bool>()).prop_map(|(bits, raw, neg)| {
+            let m = ((raw >> (64 - bits)) as i128).clamp(1, WAD_SCALE);
+            if neg { -m } else { m }
+        }),
+        2 => (1i128..=9, any::<bool>()).prop_map(|(m, neg)| if neg { -m } else { m }),
+        1 => (1i128..=999, any::<bool>()).prop_map(|(m, neg)| (if neg { -m } else { m }) * (WAD_SCALE / 1000)),
+    ]
+    .boxed()
+}
+
+fn pow_base() -> BoxedStrategy<i128> {
+    prop_oneof![
+        // around 1.0 (interest-rate style)
+        4 => (-500_000i128..=500_000).prop_map(|m| WAD_SCALE + m * (WAD_SCALE / 1_000_000)),
+        2 => (-3i128..=3).prop_map(|dl| WAD_SCALE + dl),
+        // small integers and halves, both signs
+        3 => (-24i128..=24).prop_map(|h| h * (WAD_SCALE / 2)),
+        // fractions below one
+        2 => -WAD_SCALE..=WAD_SCALE,
+        2 => wad_operand(),
+        1 => -5i128..=5,
+    ]
+    .boxed()
+}
+
+fn pow_exp() -> BoxedStrategy<u32> {
+    prop_oneof![
+        8 => 0u32..=40,
+        2 => 41u32..=300,
+        1 => proptest::sample::select(vec![64u32, 127, 128, 255, 256, 1000, 65_535, 65_536, u32::MAX / 2, 1u32 << 31, u32::MAX - 1, u32::MAX]),
+        1 => any::<u32>(),
+    ]
+    .boxed()
+}
+
+fn wop_strategy() -> BoxedStrategy<WOp> {
+    prop_oneof![
+        4 => (wad_operand(), wad_operand()).prop_map(|(a, b)| WOp::Mul { a, b }),
+        4 => (wad_operand(), prop_oneof![12 => wad_operand(), 1 => Just(0i128)]).prop_map(|(a, b)| WOp::Div { a, b }),
+        2 => (wad_operand(), qsel(), -2i8..=2).prop_map(|(a, q, db)| WOp::MulEdge { a, q, db }),
+        2 => (div_edge_den(), qsel(), -2i8..=2).prop_map(|(b, q, da)| WOp::DivEdge { b, q, da }),
+        5 => (pow_base(), pow_exp()).prop_map(|(x, n)| WOp::Pow { x, n }),
+    ]
+    .boxed()
+}
+
+#[derive(Clone, Debug, Serialize, Deserialize)]
+pub struct CaseWad {
+    pub ops: Vec<WOp>,
+}
+fn strat_wad(_tier: Tier) -> BoxedStrategy<CaseWad> {
+    proptest::collection::vec(wop_strategy(), 1..=24).prop_map(|ops| CaseWad { ops }).boxed()
+}
+
+fn wad_scale() -> BigInt {
+    BigInt::from(WAD_SCALE)
+}
+
+/// transcription of the documented algorithm (repeated squaring, truncating division by 10^18 after
+/// every multiplication, failure when an intermediate or the final value leaves i128).  Only counted.
+fn pow_transcription(x: i128, mut n: u32) -> Option<i128> {
+    let s = wad_scale();
+    let mut base = big::b(x);
+    let mut result = s.clone();
+    while n > 0 {
+        if n & 1 == 1 {
+            result = big::div_trunc(&(&result * &base), &s);
+            result.to_i128()?;
+        }
+        n >>= 1;
+        if n > 0 {
+            base = big::div_trunc(&(&base * &base), &s);
+            base.to_i128()?;
+        }
+    }
+    result.to_i128()
+}
+
+fn wad_mul_check(e: &Env, lib: &Address, a: i128, b: i128, via_contract: bool, t: &mut Tally) -> Result<bool, Violation> {
+    let p = big::b(a) * big::b(b);
+    let q = big::div_trunc(&p, &wad_scale());
+    let want = q.to_i128();
+    let input = || format!("a={a} b={b}");
+    let path = if a.checked_mul(b).is_some() { "native" } else { "i256path" };
+    let inexact = !(&p % wad_scale()).is_zero();
+    t.add("wad.mul");
+    if want.is_none() {
+        t.add("wad.mul.expect_none");
+    }
+    if path == "i256path" {
+        t.add("wad.mul.phantom_overflow");
+    }
+    if inexact && p.is_negative() {
+        t.add("wad.mul.neg_inexact");
+    }
+    if near_i128_bound(&q) {
+        t.add("wad.mul.near_bound");
+    }
+    let c = guarded(|| Wad::from_raw(a).checked_mul(e, Wad::from_raw(b)).map(|w| w.raw()));
+    judge_checked("wad.checked_mul", "trunc", path, c, want, "no-fit", &input)?;
+    if via_contract {
+        let cc = match envx::call(e, lib, "wad_checked_mul", args![e; a, b]) {
+            Ok(v) => opt_i128_from_val(e, &v).map_err(|_| ()),
+            Err(_) => Err(()),
+        };
+        judge_checked("contract:wad.checked_mul", "trunc", path, cc, want, "no-fit", &input)?;
+    }
+    Ok(path == "i256path" || near_i128_bound(&q) || (inexact && p.is_negative()))
+}
+
+fn wad_div_check(e: &Env, lib: &Address, a: i128, b: i128, t: &mut Tally) -> Result<bool, Violation> {
+    let p = big::b(a) * wad_scale();
+    let bb = big::b(b);
+    let input = || format!("a={a} b={b}");
+    let path = if a.checked_mul(WAD_SCALE).is_some() { "native" } else { "i256path" };
+    t.add("wad.div");
+    let (want, why, q) = if b == 0 {
+        t.add("wad.div.zero_den");
+        (None, "zero-den", None)
+    } else {
+        let q = big::div_trunc(&p, &bb);
+        (q.to_i128(), "no-fit", Some(q))
+    };
+    let neg_quot = (p.is_negative() && bb.is_positive()) || (p.is_positive() && bb.is_negative());
+    let inexact = b != 0 && !(&p % &bb).is_zero();
+    if want.is_none() && b != 0 {
+        t.add("wad.div.expect_none.no_fit");
+    }
+    if path == "i256path" {
+        t.add("wad.div.phantom_overflow");
+    }
+    if inexact && neg_quot {
+        t.add("wad.div.neg_inexact");
+    }
+    let near = q.as_ref().map(near_i128_bound).unwrap_or(false);
+    if near {
+        t.add("wad.div.near_bound");
+    }
+    let c = guarded(|| Wad::from_raw(a).checked_div(e, Wad::from_raw(b)).map(|w| w.raw()));
+    judge_checked("wad.checked_div", "trunc", path, c, want, why, &input)?;
+    let fr = guarded(|| Wad::from_ratio(e, a, b).raw());
+    judge_panicking("wad.from_ratio", "trunc", path, fr, want, why, &input)?;
+    let frc = envx::call_t::<i128>(e, lib, "wad_from_ratio", args![e; a, b]).map_err(|_| ());
+    judge_panicking("contract:wad.from_ratio", "trunc", path, frc, want, why, &input)?;
+    Ok(path == "i256path" || near || (inexact && neg_quot))
+}
+
+fn wad_pow_check(e: &Env, lib: &Address, x: i128, n: u32, t: &mut Tally) -> Result<bool, Violation> {
+    let input = || format!("x={x} n={n}");
+    t.add("wad.pow");
+    let c = match guarded(|| Wad::from_raw(x).checked_pow(e, n).map(|w| w.raw())) {
+        Ok(c) => c,
+        Err(()) => bail!("C12/wad.checked_pow/panicked", "checked_pow panicked; {}", input()),
+    };
+    let pd = guarded(|| Wad::from_raw(x).pow(e, n).raw());
+    let pc = envx::call_t::<i128>(e, lib, "wad_pow", args![e; x, n]).map_err(|_| ());
+    for (api, got) in [("wad.pow", pd), ("contract:wad.pow", pc)] {
+        match (got, c) {
+            (Ok(v), None) => bail!(format!("C12/{api}/returned-but-checked_pow-none"), "pow returned {v} while checked_pow is None; {}", input()),
+            (Err(()), Some(w)) => bail!(format!("C12/{api}/failed-but-checked_pow-some"), "pow failed while checked_pow = {w}; {}", input()),
+            (Ok(v), Some(w)) => ensure!(v == w, format!("C12/{api}/value-ne-checked_pow"), "pow = {v}, checked_pow = {w}; {}", input()),
+            (Err(()), None) => {}
+        }
+    }
+    match c {
+        Some(_) => t.add("wad.pow.some"),
+        None => t.add("wad.pow.none_overflow"),
+    }
+    if n == 0 {
+        t.add("wad.pow.exp0");
+        ensure!(c == Some(WAD_SCALE), "C12/wad.checked_pow/exp0-not-one", "x^0 = {:?}, expected 10^18; {}", c, input());
+    }
+    if n == 1 {
+        t.add("wad.pow.exp1");
+        ensure!(c == Some(x), "C12/wad.checked_pow/exp1-not-x", "x^1 = {:?}; {}", c, input());
+    }
+    // counted only (DESIGN §7: the value of pow for n >= 2 depends on the truncation points)
+    if n >= 2 {
+        if pow_transcription(x, n) == c {
+            t.add("wad.pow.eq_transcription");
+        } else {
+            t.add("wad.pow.ne_transcription");
+        }
+        if n == 2 {
+            let m = guarded(|| Wad::from_raw(x).checked_mul(e, Wad::from_raw(x)).map(|w| w.raw()));
+            if m == Ok(c) {
+                t.add("wad.pow2.eq_checked_mul");
+            } else {
+                t.add("wad.pow2.ne_checked_mul");
+            }
+        }
+        if x < 0 {
+            t.add("wad.pow.negative_base");
+        }
+    }
+    Ok(c.is_none() || n >= 2)
+}
+
+fn run_wad(case: &CaseWad, ctx: &mut Ctx) -> R {
+    let e = envx::new_env(100, envx::BIG_TTL);
+    let lib = e.register(MathLib, ());
+    let mut t = Tally::default();
+    let mut res = Ok(());
+    for (i, op) in case.ops.iter().enumerate() {
+        let r = match op {
+            WOp::Mul { a, b } => wad_mul_check(&e, &lib, *a, *b, i < 6, &mut t),
+            WOp::Div { a, b } => wad_div_check(&e, &lib, *a, *b, &mut t),
+            WOp::MulEdge { a, q, db } => {
+                if *a == 0 {
+                    t.add("wad.construction_out_of_range");
+                    continue;
+                }
+                match (big::div_trunc(&(q.big() * wad_scale()), &big::b(*a)) + BigInt::from(*db)).to_i128() {
+                    Some(b) => {
+                        t.add("wad.mul_edge");
+                        wad_mul_check(&e, &lib, *a, b, i < 6, &mut t)
+                    }
+                    None => {
+                        t.add("wad.construction_out_of_range");
+                        continue;
+                    }
+                }
+            }
+            WOp::DivEdge { b, q, da } => match (big::div_trunc(&(q.big() * big::b(*b)), &wad_scale()) + BigInt::from(*da)).to_i128() {
+                Some(a) => {
+                    t.add("wad.div_edge");
+                    wad_div_check(&e, &lib, a, *b, &mut t)
+                }
+                None => {
+                    t.add("wad.construction_out_of_range");
+                    continue;
+                }
+            },
+            WOp::Pow { x, n } => wad_pow_check(&e, &lib, *x, *n, &mut t),
+        };
+        match r {
+            Ok(nt) => {
+                ctx.op(true);
+                if nt {
+                    ctx.nontrivial = true;
+                }
+            }
+            Err(mut v) => {
+                v.detail = format!("op #{i} {:?}: {}", op, v.detail);
+                res = Err(v);
+                break;
+            }
+        }
+    }
+    if ctx.nontrivial {
+        t.add("nontrivial");
+    }
+    t.flush(ctx);
+    res
+}
+
+// ------------------------------------------------------------------ property
 
 pub fn property() -> Property {
-    Property { id: "C12", rule: "", subs: vec![], floors: vec![], assumptions: vec![] }
+    Property {
+        id: "C12",
+        rule: "lattice: every (x,y,d) of the boundary lattice^3 x {floor,ceil,trunc}, checked and panicking variant each compared with the exact BigInt quotient \
+               (evaluation = one triple under one rounding, both variants); i128/i256/wad: case = vector of generated inputs (random bit lengths and signs, lattice values, \
+               triples constructed around the fit boundary q = ±2^127 ∓ k). non-trivial evaluation = x.checked_mul(y) overflows (I256 path) or the exact quotient is within \
+               2^64 of an i128 bound or the remainder is non-zero with a negative quotient (i256: product beyond i128, negative inexact quotient or the MIN/-1 corner; \
+               wad: same rule on a*b/10^18 resp. a*10^18/b, pow with exponent >= 2 or overflowing); a generated case is non-trivial when it contains such an input; \
+               distinct = distinct (x,y,d,rounding) in the lattice, distinct serialised case otherwise",
+        subs: vec![
+            Box::new(Fixed { name: "lattice", slabs: lat_slabs, run: lat_run }),
+            gen_sub::<Case128>("i128", 18_000, 300_000, strat128, run128),
+            gen_sub::<Case256>("i256", 8_000, 120_000, strat256, run256),
+            gen_sub::<CaseWad>("wad", 12_000, 200_000, strat_wad, run_wad),
+        ],
+        // <= 1/10 of the counts measured over seeds 0..5 on the unchanged tree (thorough = 10 x quick; every sub grows by >= 7x)
+        floors: vec![
+            ("nontrivial", 3_000, 30_000),
+            ("lattice.slabs", 4_000, 10_000), // deterministic count n^2 (quick 67^2 = 4489): a wiring guard, deliberately tight
+            ("i128.phantom_overflow", 100_000, 1_000_000),
+            ("i128.near_bound", 30_000, 300_000),
+            ("i128.near_bound.fits", 15_000, 150_000),
+            ("i128.near_bound.no_fit", 15_000, 150_000),
+            ("i128.neg_inexact", 60_000, 600_000),
+            ("i128.rounding_decides_fit", 250, 2_500),
+            ("i128.quotient_is_2^127", 700, 7_000),
+            ("i128.expect_fail.zero_den", 1_800, 12_000), // thorough lattice has 129 values, so the share of d = 0 is smaller
+            ("i128.expect_fail.no_fit", 35_000, 350_000),
+            ("i128.expect_value", 120_000, 1_200_000),
+            ("i128.contract_calls", 90_000, 900_000),
+            ("i128.gen.mult", 2_500, 25_000),
+            ("i128.gen.from_xy", 4_000, 40_000),
+            ("i128.gen.from_xd", 4_000, 40_000),
+            ("i256.expect_value", 10_000, 100_000),
+            ("i256.neg_inexact", 4_000, 40_000),
+            ("i256.product_beyond_i128", 3_500, 35_000),
+            ("i256.product_is_min", 350, 3_500),
+            ("i256.corner_min_div_neg1", 800, 8_000),
+            ("i256.zero_den", 500, 5_000),
+            ("wad.mul.neg_inexact", 1_800, 18_000),
+            ("wad.mul.phantom_overflow", 2_000, 20_000),
+            ("wad.mul.near_bound", 900, 9_000),
+            ("wad.mul.expect_none", 800, 8_000),
+            ("wad.div.neg_inexact", 1_800, 18_000),
+            ("wad.div.near_bound", 1_500, 15_000),
+            ("wad.div.zero_den", 100, 1_000),
+            ("wad.div.expect_none.no_fit", 800, 8_000),
+            ("wad.pow.some", 3_000, 30_000),
+            ("wad.pow.none_overflow", 700, 7_000),
+            ("wad.pow.exp0", 60, 600),
+            ("wad.pow.exp1", 60, 600),
+        ],
+        assumptions: vec![
+            "num-bigint arithmetic is the reference for exact integer results",
+            "Soroban native test host I256 object arithmetic and contract-error propagation are trusted",
+            "I256 variants are judged only for products that fit in 256 bits (statement's restriction) plus the I256::MIN / -1 corner (no value may be returned)",
+            "Wad::pow value for exponents >= 2 is not asserted (depends on the algorithm's truncation points); only pow/checked_pow agreement, x^0 = 1, x^1 = x",
+        ],
+    }
 }
